@@ -201,43 +201,62 @@ def evaluate(it, m, at_cls, al_cls, tkind, r, local_tz, read_first=False):
 
 
 def _sublist(ctx, m, al_cls):
-    """Alarms.active is exactly the sub-list of self.times whose is_active()
-    is true - the getter interpreted (E7) on stub alarm times."""
+    """Alarms.active is exactly the sub-list of self.times whose is_active() is true - the
+    getter interpreted (E7) on real Alarms objects: every sequence of up to three alarms of
+    five kinds (trigger before / after the acknowledgement, own later ACKNOWLEDGED, repeating
+    across the acknowledgement, the same alarm object added twice)."""
     import itertools
     p = al_cls.properties.get("active", {}).get("get")
     if p is None:
         raise AnalysisError("anchor vanished: Alarms.active")
+    vddd = ClassVal(m.cls("prop.vDDDTypes"))
+    vdur = ClassVal(m.cls("prop.vDuration"))
+    vint = ClassVal(m.cls("prop.vInt"))
+    KINDS_ = ("before", "after", "own-ack", "repeat", "same-twice")
+
+    def alarm(it, kind):
+        al = it.call(ClassVal(m.cls("cal.Alarm")), [], {})
+        rank = {"before": 30, "after": 50, "own-ack": 50, "repeat": 39, "same-twice": 45}[kind]
+        al.items["TRIGGER"] = it.call(vddd, [DT("utc", rank, None)], {})
+        if kind == "own-ack":
+            al.items["ACKNOWLEDGED"] = it.call(vddd, [DT("utc", 60, None)], {})
+        if kind == "repeat":
+            al.items["REPEAT"] = it.call(vint, [3], {})
+            al.items["DURATION"] = it.call(vdur, [TD(term={"D": 1}, mag="subday")], {})
+        return al
     n = 0
     bad = None
-    for size in range(0, 5):
-        for flags in itertools.product((True, False), repeat=size):
-            it = Interp(m)
-            al = Obj(al_cls)
-            times = []
-            for fl in flags:
-                t = Obj(None)
-                t.attrs["is_active"] = Native("is_active", lambda i, a, k, fl=fl: fl)
-                times.append(t)
-            al.attrs["times"] = times
+    seqs = [()] + [s_ for size in (1, 2, 3) for s_ in itertools.product(KINDS_, repeat=size)]
+    for seq in seqs:
+        it = Interp(m)
+        try:
+            alarms = it.call(ClassVal(al_cls), [], {})
+            it.call(it.getattr(alarms, "acknowledge_until"), [DT("utc", 40, None)], {})
+            for kind in seq:
+                al = alarm(it, kind)
+                it.call(it.getattr(alarms, "add_alarm"), [al], {})
+                if kind == "same-twice":
+                    it.call(it.getattr(alarms, "add_alarm"), [al], {})
             n += 1
-            try:
-                got = it.getattr(al, "active")
-            except AbsRaise as e:
-                bad = bad or (flags, f"raises {e.cls_name}")
-                continue
-            except Unsupported as e:
-                raise AnalysisError(f"Alarms.active leaves the abstract interface: {e}")
-            want = [t for t, fl in zip(times, flags) if fl]
-            if not isinstance(got, list) or len(got) != len(want) or \
-                    any(g is not w for g, w in zip(got, want)):
-                bad = bad or (flags, "returns " + (
-                    str([times.index(g) if g in times else "?" for g in got])
-                    if isinstance(got, list) else repr(got)))
+            times = it._as_list(it.getattr(alarms, "times"))
+            want = [t for t in times if it.truth(it.call(it.getattr(t, "is_active"), [], {}))]
+            # the getter builds its own AlarmTime objects: compare by (alarm object, trigger rank)
+            key = lambda t: (id(t.attrs.get("_alarm", t.attrs.get("alarm"))),
+                             getattr(t.attrs.get("_trigger"), "rank", None))
+            got = it._as_list(it.getattr(alarms, "active"))
+            if [key(t) for t in got] != [key(t) for t in want]:
+                bad = bad or (seq, f"returns {len(got)} of {len(times)} times, "
+                              f"{len(want)} of them answer is_active() with True "
+                              f"(triggers {[k[1] for k in map(key, got)]} vs {[k[1] for k in map(key, want)]})")
+        except AbsRaise as e:
+            bad = bad or (seq, f"raises {e.cls_name}")
+        except Unsupported as e:
+            raise AnalysisError(f"Alarms.active leaves the abstract interface on alarms {seq}: {e}")
     ctx.check(bad is None, "C15/SUBLIST", "active filters times by is_active",
-              f"Alarms.active must be exactly the sub-list of self.times whose "
-              f"is_active() is true (same order, nothing added); for is_active = "
-              f"{list(bad[0]) if bad else ''} it {bad[1] if bad else ''}", p.loc(),
-              detail=f"{n} lists of stub alarm times (length 0..4, every activity pattern)")
+              f"Alarms.active must be exactly the sub-list of Alarms.times whose is_active() is true "
+              f"(same order, nothing added); with the alarms {list(bad[0]) if bad else ''} it "
+              f"{bad[1] if bad else ''}", p.loc(),
+              detail=f"{n} Alarms objects (0..3 alarms of 5 kinds, acknowledged at a fixed instant)")
 
 
 def _history(ctx, m, al_cls):
